@@ -322,9 +322,6 @@ func (v *Vue) buildStyleString(pairs []objectPair) string {
 		key := pair.key
 		value := strings.TrimSpace(fmt.Sprint(pair.value))
 
-		// Remove quotes if present
-		value = strings.Trim(value, "\"'")
-
 		if value != "" {
 			// Convert camelCase to kebab-case if the key doesn't contain hyphens
 			if !strings.Contains(key, "-") {
